@@ -20,7 +20,7 @@ RULE = ('targets with generated signatures (positional-only, positional-or-keywo
         'distinct = hash of the case')
 BUDGET = {'quick': (4, 700), 'thorough': (16, 12000)}
 ASSUMPTIONS = ['one case in eight also runs two fixed documents: a target name bound to another function between two builds, and builtin targets without an introspectable signature given gap-free positional arguments',
-               'a string equal to the current target and call<->bind kind changes are not generated',
+               'a string equal to the current target and call<->bind kind changes are not generated; a dynamic scalar node (!xref, !eval, !import, f-string) merged onto a function node is a value, not a target name (the table speaks of strings)',
                'argument values are scalars (nested argument mappings merge by the ordinary rules)']
 
 VALS = st.one_of(st.integers(0, 9), st.sampled_from(['s', None, True, 2.5]))
@@ -141,7 +141,9 @@ def _case(draw):
         if not steps:
             steps.append({'what': 'str', 'sig': draw(_sig(9))})
     return {'kind': kind, 'sig': sig0, 'form': form, 'args': args, 'steps': steps, 'prio0': prio0, 'pins': pins, 'under_merge': under_merge,
-            'rebind': draw(st.integers(0, 7)) == 0}
+            'rebind': draw(st.integers(0, 7)) == 0,
+            # a last document in which a *dynamic* scalar node stands at the key of the function node: it replaces it, as any scalar does
+            'dyn': draw(st.sampled_from([None, None, None, None, 'xref', 'eval', 'import', 'fstr'])) if not (prio_mode or pin_mode) else None}
 
 
 def strategy():
@@ -290,10 +292,34 @@ def _builtin_targets():
         raise Violation(f'C13: builtin targets: got {O.to_builtin(got)!r}\nsources:\n{text}')
 
 
+def _dynamic_scalar_on_top(case, texts):
+    """Only a *string* names a new target; a reference / expression / import / f-string node merged onto a function node is a value like
+    any scalar: it takes the place of the function node, which then neither runs nor lends its name to anything."""
+    kind = case['dyn']
+    node, want = {'xref': (tdoc.raw('other', '!xref'), 41), 'eval': (tdoc.raw('6 * 7', '!eval', q='dq'), 42),
+                  'import': (tdoc.raw('vfrec.call_43', '!import'), vfrec.call_43),
+                  'fstr': ({'t': 'raw', 'text': "f'v{other}'", 'q': 'verbatim'}, 'v41')}[kind]
+    last = tdoc.mp([('f', node)])
+    if case.get('under_merge'):
+        last['del'] = False
+    texts = texts + [tdoc.render(last)]
+    src = '\nsources:\n' + '\n'.join(texts)
+    vfrec.reset()
+    status, got = O.try_call(O.build_config, texts)
+    if status != 'ok':
+        raise Violation(f'C13: a !{kind} node written over the function node must take its place (value {want!r}), but the build failed: {type(got).__name__}: {str(got)[:300]}{src}')
+    if 'f' not in got or (got['f'] is not want if kind == 'import' else O.canon(got['f']) != O.canon(want)):
+        raise Violation(f'C13: a !{kind} node written over the function node must take its place: expected {want!r}, got {O.to_builtin(got).get("f")!r}{src}')
+    if vfrec.LOG:
+        raise Violation(f'C13: a !{kind} node written over the function node: a target was still called: {[e[:2] for e in vfrec.LOG]}{src}')
+
+
 def run_case(case):
     if case.get('rebind'):
         _rebound_name()
         _builtin_targets()
+    if case.get('dyn'):
+        _dynamic_scalar_on_top(case, [tdoc.render(d) for d in docs(case)])
     ds = docs(case)
     texts = [tdoc.render(d) for d in ds]
     src = '\nsources:\n' + '\n'.join(texts)
@@ -301,6 +327,8 @@ def run_case(case):
     target = getattr(vfrec, target_name)
     po, pk, nd, ko, va, vk = vfrec.sig_params(target_name)
     labels = {'kind=' + case['kind'], 'form=' + case['form'], 'steps=%d' % len(case['steps'])}
+    if case.get('dyn'):
+        labels.add('dynamic-scalar-written-over-the-function-node')
     if case.get('prio0') or any(s.get('prio') for s in case['steps']):
         labels.add('priorities-on-function-nodes')
     if case.get('pins'):
